@@ -173,6 +173,8 @@ def classify_payload(repo: Repo, ci: Optional[ClassInfo], e: ast.expr, sf=None) 
         inner = e.func.value
         src = attr_reads(inner)
         return Payload("fixedstring", src=src, length=n, truncation=_has_encode_slice(inner), text=text)
+    if isinstance(e, ast.Call) and isinstance(e.func, ast.Attribute) and e.func.attr == "encode":
+        return Payload("text", src=attr_reads(e.func.value), text=text)
     if isinstance(e, ast.Call) and isinstance(e.func, ast.Attribute) and e.func.attr == "join":
         return Payload("join", src=attr_reads(e), text=text)
     if isinstance(e, (ast.Attribute, ast.Name)):
